@@ -55,7 +55,9 @@ func (g *GuessAndCheck) updateMajor(operation chan<- Task, task Task) {
 	// Among equal values the sample drawn first is the best, so that the
 	// location found does not depend on the order in which concurrent
 	// evaluations finish.
-	if task.F < g.bestF || (task.F == g.bestF && g.bestID != -1 && task.ID < g.bestID) {
+	// The first value received is the best so far even if it is +Inf or
+	// NaN, and any value is better than NaN.
+	if g.bestID == -1 || task.F < g.bestF || (math.IsNaN(g.bestF) && !math.IsNaN(task.F)) || (task.F == g.bestF && task.ID < g.bestID) {
 		g.bestF = task.F
 		g.bestID = task.ID
 		copy(g.bestX, task.X)
